@@ -44,7 +44,22 @@ finally:
 res["confirmed"] = res.get("demo_without_change") == "PASS" and res.get("demo_with_change") == "FAIL" and res.get("suite_ok", False)
 # --- run the checks against /repo with the change applied
 res["checks"] = {}
-if res["confirmed"]:
+if res["confirmed"] and os.environ.get("MUTANT_SCRATCH"):
+    # /repo is busy (a regression run applies other seeded changes to it): check a scratch worktree of HEAD instead
+    chk = wt + "-check"
+    sh("git -C /repo worktree remove --force %s" % chk)
+    sh("git -C /repo worktree add -q --detach %s HEAD" % chk)
+    try:
+        rc, out = sh("git apply %s" % patch, chk)
+        res["checks"] = {}
+        for p in props:
+            r = subprocess.run("./check %s quick" % p, shell=True, cwd="/verif", env=dict(env, VERIF_REPO=chk, VERIF_WORK_SUFFIX="-scratch"), capture_output=True, text=True)
+            out = r.stdout + r.stderr
+            v = [l for l in out.splitlines() if l.startswith("VIOLATION") or l.startswith("  ")]
+            res["checks"][p] = {"exit": r.returncode, "lines": v[:6]}
+    finally:
+        sh("git -C /repo worktree remove --force %s" % chk)
+elif res["confirmed"]:
     rc, out = sh("git -C /repo apply %s" % patch)
     try:
         for p in props:
